@@ -109,9 +109,15 @@ def oracle(ctx, ops, impl, max_index, min_left_min):
             if (line not in ("revoke revoked", "revoke ok") and op.get("purpose") == "revocation" and op.get("idx", "").isdigit()
                     and int(op["idx"]) in revoked.get((node, name), set())):
                 report("C11:revoke-not-idempotent", f"second revoke of {name}#{op['idx']} answered {line}", i)
-        elif kind == "serve" and line.startswith("serve issuer="):
+        elif kind in ("serve", "serverace") and " issuer=" in line:
             stats["served"] += 1
-            f = dict(kv.split("=", 1) for kv in line.split()[1:])
+            if kind == "serverace":
+                rv = line.split()[1].split("=", 1)[1]
+                if rv != "none":
+                    stats["revoke-inside-credential"] += 1
+                if rv == "ok":
+                    revoked.setdefault((node, f"n{node}/{op['issuer']}/{op['page']}"), set()).add(int(op["idx"]))
+            f = dict(kv.split("=", 1) for kv in line.split()[1:] if "=" in kv)
             bits = set(int(x) for x in f["bits"].strip("[]").split(",") if x)
             key = (node, f["subj"])
             if f["sig"] != "ok":
